@@ -66,6 +66,7 @@ type Plan struct {
 	CrashAfter int            // crash once this many requests were processed; <0 = never
 	Hold       bool           // withhold replies until released
 	Park       bool           // do not process requests until stepped
+	ParkFilter func(argv [][]byte) bool // with Park: only park requests it accepts (and whatever follows them on the same connection)
 	OnRequest  func(r *Req)   // called (server lock held) before request r is processed
 	AfterReq   func(r *Req)   // called (server lock held) after request r was processed and replied
 }
@@ -83,6 +84,7 @@ type ConnState struct {
 	parked  [][][]byte
 	Asking  bool
 	closed  bool
+	zombie  bool
 }
 
 // Server is one Redis node.
@@ -200,7 +202,7 @@ func (h *connHandler) OnData(c *vnet.Conn, p []byte) {
 		if len(argv) == 0 {
 			continue
 		}
-		if s.plan.Park {
+		if s.plan.Park && (len(cs.parked) > 0 || s.plan.ParkFilter == nil || s.plan.ParkFilter(argv)) {
 			cs.parked = append(cs.parked, argv)
 			continue
 		}
@@ -216,11 +218,27 @@ func (h *connHandler) OnClose(c *vnet.Conn) {
 	s.mu.Lock()
 	defer s.mu.Unlock()
 	cs := c.User.(*ConnState)
+	if len(cs.parked) > 0 && !s.crashed {
+		// the client closed, but what it had already written is in the server's receive
+		// buffer: a real server still processes it. Keep the connection as a zombie until its
+		// parked requests were stepped (replies go nowhere).
+		cs.zombie = true
+		return
+	}
 	cs.closed = true
 	cs.inMulti = false
 	cs.queued = nil
 	cs.parked = nil
 	delete(s.conns, cs.ID)
+}
+
+func (s *Server) reapZombie(cs *ConnState) {
+	if cs.zombie && len(cs.parked) == 0 {
+		cs.closed = true
+		cs.inMulti = false
+		cs.queued = nil
+		delete(s.conns, cs.ID)
+	}
 }
 
 func (s *Server) push(cs *ConnState, b []byte) {
@@ -414,6 +432,7 @@ func (s *Server) Step(conn int, n int) int {
 		s.process(cs, argv)
 		k++
 	}
+	s.reapZombie(cs)
 	return k
 }
 
@@ -434,6 +453,7 @@ func (s *Server) Unpark() {
 			cs.parked = cs.parked[1:]
 			s.process(cs, argv)
 		}
+		s.reapZombie(cs)
 	}
 }
 
